@@ -1,6 +1,6 @@
 """C13 - EKF / UKF / PF: provenance clauses."""
 import ast
-from ..core import RuleResult, Finding, AnalysisError, dotted, src, norm_construct
+from ..core import RuleResult, Finding, AnalysisError, dotted, src, norm_construct, guarded, guarded_list
 from ..expr import inline_straight, returns_of, dump, contains, is_call_to, subst, rv
 from .. import paths
 
@@ -18,6 +18,7 @@ def _find_calls(e, meth):
     return [n for n in ast.walk(e) if isinstance(n, ast.Call) and isinstance(n.func, ast.Attribute) and n.func.attr == meth]
 
 
+@guarded
 def rule_innov(repo, tier):
     res = RuleResult('C13.INNOV', 'EKF: the state argument of the observation call forming the innovation derives from the '
                      'result of state_transition (the predicted state)', floor=1)
@@ -47,6 +48,7 @@ def rule_innov(repo, tier):
     return res
 
 
+@guarded
 def rule_gain(repo, tier):
     res = RuleResult('C13.GAIN', 'EKF: gain and posterior covariance are built from the propagated covariance A P A^T + Q; '
                      'the posterior mean is predicted state + K @ innovation', floor=2)
@@ -142,6 +144,7 @@ def deviation_root(e):
     return None
 
 
+@guarded
 def rule_xcov(repo, tier):
     res = RuleResult('C13.XCOV', 'UKF: both deviation arguments of every covariance stem from the same sigma-point set', floor=3)
     f = repo.func(UKF, 'UKF.forward')
@@ -176,6 +179,7 @@ def rule_xcov(repo, tier):
 TRANSPOSE = {'mT', 'mH', 'T', 'H'}
 
 
+@guarded
 def rule_orient(repo, tier):
     res = RuleResult('C13.ORIENT', 'UKF: sigma offsets stacked along dim -2 are the columns of the matrix square root '
                      '(factor transposed before being added to the row-shaped mean)', floor=1)
@@ -211,6 +215,7 @@ def rule_orient(repo, tier):
     return res
 
 
+@guarded
 def rule_pf(repo, tier):
     res = RuleResult('C13.PF', 'PF: particles ~ N(x, n P) -> model -> weights(y, ye, R) -> resample -> mean / covariance + Q', floor=4)
     f = repo.func(PF, 'PF.forward')
@@ -266,6 +271,7 @@ def sigma_like(e, meth):
     return isinstance(e, ast.Call) and isinstance(e.func, ast.Attribute) and e.func.attr == meth
 
 
+@guarded
 def rule_inverse(repo, tier):
     res = RuleResult('C13.INV', 'the innovation covariance is inverted exactly: pinv / inv without a truncation tolerance (rtol / atol / rcond), '
                      'otherwise measurement directions with small innovation variance are silently ignored; a Cholesky factor used to colour '
@@ -308,6 +314,7 @@ def rule_inverse(repo, tier):
     return res
 
 
+@guarded
 def rule_sym(repo, tier):
     from ..expr import triple_products, is_transpose_of
     res = RuleResult('C13.SYM', 'EKF prediction and UKF update build their covariances from congruences X S X^T (outer factors transposes of one '
@@ -348,6 +355,7 @@ def rule_sym(repo, tier):
     return res
 
 
+@guarded
 def rule_pure13(repo, tier):
     from ..effects import rule_pure
     t = [(EKF, 'EKF.forward'), (UKF, 'UKF.forward'), (UKF, 'UKF.sigma_weight_points'), (UKF, 'UKF.compute_cov'), (PF, 'PF.forward'),
